@@ -46,14 +46,12 @@ Theorem C12_traversal : forall cs (runs : list (effect * list step)) s0,
   /\ map fst (st_pkg s) = map fst (st_pkg s0)
   /\ exists new, st_saved s = st_saved s0 ++ new
        /\ Forall (fun q => strip_pkg cs q = strip_pkg cs (st_pkg s0) /\ map fst q = map fst (st_pkg s0)) new.
-Proof.
-  intros cs runs s0 H. destruct (traversal cs runs s0 H) as [[H1 H2] H3]. repeat split; auto.
-Qed.
+Proof. exact traversal_full. Qed.
 Print Assumptions C12_traversal.
 
 (** saving is a function of the state that does not change it *)
 Theorem C12_save_changes_nothing : forall s, st_pkg (apply_step s Save) = st_pkg s.
-Proof. reflexivity. Qed.
+Proof. exact save_changes_nothing. Qed.
 Print Assumptions C12_save_changes_nothing.
 
 Theorem C12_strip_idempotent : forall cs n, strip cs (strip cs n) = strip cs n.
@@ -67,10 +65,7 @@ Theorem C12_strip_preserves_meaning : forall cs t a c x,
   strip cs (Elem t a c x) = Elem t a (map (strip cs) (filter (significant cs) c)) x
   /\ (forall m, In m c -> significant cs m = true -> In (strip cs m) (children_of (strip cs (Elem t a c x))))
   /\ (forall m, removable cs (strip cs m) = negb (significant cs m)).
-Proof.
-  intros. split; [apply strip_spec|]. split; [intros; apply strip_keeps_significant; auto|].
-  intros; apply removable_strip.
-Qed.
+Proof. exact strip_preserves_meaning. Qed.
 Print Assumptions C12_strip_preserves_meaning.
 
 (** an element that carries meaning never disappears: Creates is observable under strip *)
@@ -98,10 +93,7 @@ Theorem C12_judged_accessor_harmless : forall a, In a effects -> memN (acc_id a)
   forall steps s0, realises (acc_eff a) steps = true ->
   strip_pkg containers (st_pkg (run steps s0)) = strip_pkg containers (st_pkg s0)
   /\ map fst (st_pkg (run steps s0)) = map fst (st_pkg s0).
-Proof.
-  intros a Hin Hk Hs Hd steps s0 Hr.
-  destruct (judged_accessor_harmless a Hin Hk Hs Hd steps s0 Hr) as [[H1 H2] _]. auto.
-Qed.
+Proof. exact judged_accessor_harmless_pkg. Qed.
 Print Assumptions C12_judged_accessor_harmless.
 
 (** recorded findings are real: each is a judged accessor predicted Creates, and an accessor that
